@@ -181,3 +181,89 @@ Proof.
     eapply Forall_impl; [|exact Hc]. intros c Hb. cbn beta. bals.
   - (* Hash *) apply Bal_concat, Forall_map. exact Hc.
 Qed.
+
+(** ** printed types, bounds and predicates are well-bracketed - unconditionally: they are printed from an AST *)
+From DX Require Import LemSelf.
+
+Lemma Forall_firstn {A} (P : A -> Prop) n l : Forall P l -> Forall P (firstn n l).
+Proof. revert n. induction l as [|x r IH]; intros [|n] H; cbn; try constructor; inversion H; auto. Qed.
+Lemma Forall_skipn {A} (P : A -> Prop) n l : Forall P l -> Forall P (skipn n l).
+Proof. revert n. induction l as [|x r IH]; intros [|n] H; cbn; try assumption; inversion H; auto. Qed.
+Lemma Bal_plain ts : (forall t, In t ts -> match t with TO _ | TC _ => False | _ => True end) -> Bal ts.
+Proof. intros H. apply Bal_balanced, balanced_no_brackets, H. Qed.
+Lemma Bal_if (b : bool) a c : Bal a -> Bal c -> Bal (if b then a else c).
+Proof. destruct b; auto. Qed.
+Lemma Bal_one t : match t with TO _ | TC _ => False | _ => True end -> Bal [t].
+Proof. intros H. apply Bal_cons_plain; [exact H | apply Bal_nil]. Qed.
+
+Lemma r_cexpr_Bal c : Bal (r_cexpr c).
+Proof.
+  destruct c as [s|lead names]; cbn [r_cexpr]; [apply Bal_one; exact I|].
+  apply Bal_app; [destruct lead; [apply Bal_one; exact I | apply Bal_nil]|].
+  apply Bal_sep_by; [apply Bal_one; exact I|]. apply Forall_map, Forall_forall. intros n _. apply Bal_one. exact I.
+Qed.
+
+Ltac bal1 := first [apply Bal_one; exact I | apply Bal_nil | apply Bal_if | assumption].
+Ltac balt :=
+  unfold comma in *;
+  repeat first
+    [ assumption | apply Bal_nil | match goal with |- Bal (r_cexpr _) => apply r_cexpr_Bal end
+    | match goal with |- Bal (sep_by _ _) => apply Bal_sep_by; [apply Bal_one; exact I|] end
+    | apply Bal_tparen | apply Bal_tbrace | apply Bal_tbracket
+    | match goal with |- Bal (_ ++ _) => apply Bal_app end
+    | apply Bal_cons_plain; [exact I|] | apply Bal_if ].
+
+Lemma r_ty_Bal_all : forall t, Bal (r_ty t).
+Proof.
+  apply (ty_ind2 (fun t => Bal (r_ty t)) (fun s => Bal (r_seg s)) (fun a => Bal (r_segargs a))
+                 (fun g => Bal (r_garg g)) (fun b => Bal (r_tbound b))).
+  - intros q lead segs Hq Hs. assert (Forall Bal (map r_seg segs)) as Hm by (apply Forall_map; exact Hs).
+    destruct q as [[qt pos]|]; cbn [r_ty].
+    + cbn [Pq fst] in Hq. balt; try (destruct (_ =? _)); try (destruct (_ <? _)); balt;
+        first [apply Forall_firstn; exact Hm | apply Forall_skipn; exact Hm | idtac].
+    + balt.
+  - intros lt mt t IH. cbn [r_ty]. balt. destruct lt; cbn [opt_toks]; balt.
+  - intros ts IH. cbn [r_ty]. assert (Forall Bal (map r_ty ts)) as Hm by (apply Forall_map; exact IH).
+    destruct (map r_ty ts) as [|x [|y r]] eqn:E; unfold comma.
+    + balt.
+    + inversion Hm; subst. balt.
+    + balt.
+  - intros t len IH. cbn [r_ty]. balt.
+  - intros t IH. cbn [r_ty]. balt.
+  - intros mt t IH. cbn [r_ty]. balt.
+  - intros args ret IHa IHr. cbn [r_ty]. balt; [apply Forall_map; exact IHa|]. destruct ret as [r|]; cbn [Popt] in IHr; balt.
+  - cbn [r_ty]. balt.
+  - intros t IH. cbn [r_ty]. balt.
+  - intros bs IH. cbn [r_ty]. balt. apply Forall_map; exact IH.
+  - intros n a IH. cbn [r_seg]. balt.
+  - cbn [r_segargs]. balt.
+  - intros l IH. cbn [r_segargs]. balt. apply Forall_map; exact IH.
+  - intros ins out IHi IHo. cbn [r_segargs]. balt; [apply Forall_map; exact IHi|]. destruct out as [r|]; cbn [Popt] in IHo; balt.
+  - intros t IH. exact IH.
+  - intros l. cbn [r_garg]. balt.
+  - intros c. cbn [r_garg]. balt.
+  - intros n t IH. cbn [r_garg]. balt.
+  - intros m lead segs IH. cbn [r_tbound]. balt. apply Forall_map; exact IH.
+  - intros l. cbn [r_tbound]. balt.
+Qed.
+
+Theorem r_ty_balanced t : balanced (r_ty t) = true.
+Proof. apply Bal_balanced, r_ty_Bal_all. Qed.
+
+Lemma r_tbound_Bal b : Bal (r_tbound b).
+Proof.
+  destruct b as [m lead segs|l]; cbn [r_tbound]; balt.
+  apply Forall_map, Forall_forall. intros [n a] _.
+  change (r_seg (Seg n a)) with (r_ty (TyPath None false [Seg n a])). apply r_ty_Bal_all.
+Qed.
+
+Theorem r_wpred_balanced p : balanced (r_wpred p) = true.
+Proof.
+  apply Bal_balanced. destruct p as [t bs|l ls]; cbn [r_wpred]; unfold r_tbounds.
+  - apply Bal_app; [apply r_ty_Bal_all|]. apply Bal_app; [apply Bal_one; exact I|].
+    apply Bal_sep_by; [apply Bal_one; exact I|]. apply Forall_map, Forall_forall. intros b _. apply r_tbound_Bal.
+  - apply Bal_plain. intros t [<-|[<-|H]]; try exact I. revert t H.
+    induction ls as [|x [|y r] IH]; cbn; intros t H; try contradiction.
+    + destruct H as [<-|[]]; exact I.
+    + destruct H as [<-|[<-|H]]; try exact I. apply IH, H.
+Qed.
